@@ -1,5 +1,5 @@
 """C11 Crypto hashes: structural clauses (dispatch table, dispatcher typestate, hex
-encoding, full-width length, buffer geometry, reset completeness, padding stores)."""
+encoding, full-width length, buffer geometry, reset completeness, padding stores, multi-word addition)."""
 import re
 
 from plint import guards
@@ -229,7 +229,13 @@ def run(prog, rep):
             val = symx.norm(sxe.ev(n["r"], symx.State())[0][0])
             stores.append((idx, val, line(n)))
     dparam, lparam, oparam = hx.param_names()
-    I = ("unk", "i")
+    ivar = "i"
+    for b in hx.blocks.values():
+        if b.cond is not None and b.term and b.term.get("kind") == "for":
+            cs = strip_casts(b.cond)
+            if cs["k"] == "bin" and strip_casts(cs["l"])["k"] == "ref":
+                ivar = strip_casts(cs["l"])["name"]
+    I = ("unk", ivar)
     okh = len(stores) == 2
 
     def nib(v):
@@ -492,6 +498,198 @@ def run(prog, rep):
     rep.floor("C11.5", 14)
     rep.floor("C11.6", 6)
     rep.floor("C11.7", 1)
+    check_adders(prog, rep)
+
+
+# ---- C11.8 multi-word addition ------------------------------------------------------------------
+def _adder_domain(nops):
+    """The abstract domain of the rule: every feasible combination of (carry-in, carry-out, ordering of the
+    sum against each operand, ordering of the operands) for s = x (+ y) + cin in W-bit modular arithmetic.
+    The set of ordering classes does not depend on W (it is the same for W = 3 and W = 4, asserted below),
+    so a carry predicate built from comparisons of s, x, y and cin is decided exactly by evaluating it on
+    these classes."""
+    def classes(W):
+        M = 1 << W
+        out = set()
+        sg = lambda a, b: (a > b) - (a < b)
+        for x in range(M):
+            for y in (range(M) if nops == 2 else (0,)):
+                for cin in (0, 1):
+                    t = x + y + cin
+                    s = t % M
+                    out.add((cin, int(t >= M), sg(s, x), sg(s, y) if nops == 2 else None, sg(x, y) if nops == 2 else None))
+        return out
+    c3, c4 = classes(3), classes(4)
+    if c3 != c4:
+        raise AnalysisBroken("C11.8: ordering classes of the adder domain did not stabilise")
+    return sorted(c3, key=str)
+
+
+def _ev3(e, cls, env):
+    """three-valued evaluation of a carry predicate on one ordering class: int, or None when undecided"""
+    e = strip_casts(e)
+    if e is None:
+        return None
+    if cv(e) is not None:
+        return cv(e)
+    k = e["k"]
+    if k == "ref" and e["name"] == env["cin"]:
+        return cls[0]
+    if k == "cond":
+        c = _ev3(e["c"], cls, env)
+        a, b = _ev3(e["a"], cls, env), _ev3(e["b"], cls, env)
+        if c is None:
+            return a if a is not None and a == b else None
+        return a if c else b
+    if k == "un" and e["op"] == "!":
+        v = _ev3(e["e"], cls, env)
+        return None if v is None else int(not v)
+    if k == "bin" and e["op"] in ("||", "&&"):
+        l, r = _ev3(e["l"], cls, env), _ev3(e["r"], cls, env)
+        if e["op"] == "||":
+            if l or r:
+                return 1
+            return 0 if (l == 0 and r == 0) else None
+        if l == 0 or r == 0:
+            return 0
+        return 1 if (l and r) else None
+    if k == "bin" and e["op"] in ("<", ">", "<=", ">=", "==", "!="):
+        cl, cr = env["cls"](e["l"]), env["cls"](e["r"])
+        sgn = None
+        if cl and cr:
+            if cl == cr:
+                sgn = 0
+            else:
+                table = {("s", "x"): cls[2], ("s", "y"): cls[3], ("x", "y"): cls[4]}
+                sgn = table.get((cl, cr))
+                if sgn is None and (cr, cl) in table and table[(cr, cl)] is not None:
+                    sgn = -table[(cr, cl)]
+        else:
+            l, r = _ev3(e["l"], cls, env), _ev3(e["r"], cls, env)
+            if l is not None and r is not None and not cl and not cr:
+                sgn = (l > r) - (l < r)
+        if sgn is None:
+            return None
+        return int({"<": sgn < 0, ">": sgn > 0, "<=": sgn <= 0, ">=": sgn >= 0, "==": sgn == 0, "!=": sgn != 0}[e["op"]])
+    return None
+
+
+def _addends(e):
+    e = strip_casts(e)
+    if e is not None and e["k"] == "bin" and e["op"] == "+":
+        return _addends(e["l"]) + _addends(e["r"])
+    return [e]
+
+
+def check_adders(prog, rep):
+    rep.rule("C11.8", "multi-word addition: where a word sum takes a loop-carried carry-in (s = x + y + cin), the carry-out predicate "
+                      "is decided on every feasible ordering class of (s, x, y, cin) and must equal the true carry on each")
+    n = 0
+    for un in ALGO_UNITS:
+        au = prog.unit(un)
+        for fn in au.functions.values():
+            for hdr, body in fn.loops():
+                asgs = [(b, i, s) for (b, i, s) in fn.stmts() if b.id in body and s["k"] == "asg"]
+                # loop-carried 0/1 variables: locals assigned in the loop from a comparison / logical / 0-1 conditional
+                def boolish(e):
+                    e = strip_casts(e)
+                    if e is None:
+                        return False
+                    if e["k"] == "bin" and e["op"] in ("<", ">", "<=", ">=", "==", "!=", "||", "&&"):
+                        return True
+                    if e["k"] == "cond":
+                        return all(cv(x) in (0, 1) or boolish(x) for x in (e["a"], e["b"])) and (cv(e["a"]) is None or cv(e["a"]) != cv(e["b"]))
+                    return False
+                carries = {}
+                for (b, i, s) in asgs:
+                    l = strip_casts(s["l"])
+                    if s["op"] == "=" and l["k"] == "ref" and l.get("decl") == "local" and boolish(s["r"]):
+                        carries.setdefault(l["name"], []).append((b, i, s))
+                for (b, i, s) in asgs:
+                    if s["op"] not in ("=", "+="):
+                        continue
+                    adds = _addends(s["r"])
+                    if s["op"] == "+=":
+                        adds = [strip_casts(s["l"])] + adds
+                    cin = None
+                    words = []
+                    for a in adds:
+                        v = None
+                        if a["k"] == "ref" and a["name"] in carries:
+                            v = a["name"]
+                        elif a["k"] == "cond" and strip_casts(a["c"])["k"] == "ref" and strip_casts(a["c"])["name"] in carries \
+                                and cv(a["a"]) == 1 and cv(a["b"]) == 0:
+                            v = strip_casts(a["c"])["name"]
+                        if v and cin is None:
+                            cin = v
+                        else:
+                            words.append(a)
+                    if cin is None or not words:
+                        continue
+                    n += 1
+                    site = "adder:%s" % show(strip_casts(s["l"]))
+                    if len(words) > 2 or len(carries[cin]) != 1:
+                        raise AnalysisBroken("C11.8: %s:%d: unrecognised adder shape (%d word operands, %d carry assignments)" %
+                                             (un, line(s), len(words), len(carries[cin])))
+                    (cb, ci, cs) = carries[cin][0]
+                    if not fn.pos_dominates((b.id, i), (cb.id, ci)):
+                        raise AnalysisBroken("C11.8: %s:%d: the carry-out assignment does not follow the sum" % (un, line(s)))
+                    tkey = guards.key(strip_casts(s["l"]))
+                    wkeys = [guards.key(w) for w in words]
+                    tw = (au.type_of(strip_casts(s["l"])) or {}).get("w", 0)
+                    sw = (au.type_of(strip_casts(s["r"])) or {}).get("w", 0) if s["op"] == "=" else tw
+                    if any(((au.type_of(w) or {}).get("w", 0)) < sw for w in words) and sw > 32:
+                        raise AnalysisBroken("C11.8: %s:%d: sum computed in a wider type than its operands: idiom not modelled" % (un, line(s)))
+                    # saved copies of the old target value: `v = T` before the sum, v assigned once
+                    saved = set()
+                    for (b2, i2, s2) in asgs:
+                        l2 = strip_casts(s2["l"])
+                        if s2["op"] == "=" and l2["k"] == "ref" and guards.key(strip_casts(s2["r"])) == tkey \
+                                and fn.pos_dominates((b2.id, i2), (b.id, i)) \
+                                and sum(1 for (_, _, s3) in fn.stmts() if s3["k"] == "asg" and guards.key(strip_casts(s3["l"])) == guards.key(l2)) == 1:
+                            saved.add(guards.key(l2))
+                    names = {}
+                    for idx, wk in enumerate(wkeys):
+                        names["xy"[idx]] = wk
+
+                    def cls_of(e, tkey=tkey, names=names, saved=saved):
+                        e = strip_casts(e)
+                        if e is None:
+                            return None
+                        kk = guards.key(e)
+                        if kk == tkey:
+                            return "s"
+                        for nm, wk in names.items():
+                            if wk == tkey:
+                                if kk in saved:
+                                    return nm
+                            elif kk == wk:
+                                return nm
+                        return None
+                    env = {"cin": cin, "cls": cls_of}
+                    dom = _adder_domain(len(words))
+                    wrong, undec = None, None
+                    for c in dom:
+                        v = _ev3(cs["r"], c, env)
+                        if v is None:
+                            undec = undec or c
+                        elif bool(v) != bool(c[1]):
+                            wrong = wrong or c
+                    def descr(c):
+                        rel = {-1: "<", 0: "==", 1: ">"}
+                        ops = [show(w) for w in words]
+                        t = "carry-in %d, sum %s %s" % (c[0], rel[c[2]], "old " + ops[0] if wkeys[0] == tkey else ops[0])
+                        if len(words) == 2:
+                            t += ", sum %s %s" % (rel[c[3]], "old " + ops[1] if wkeys[1] == tkey else ops[1])
+                        return t
+                    if wrong is None and undec is not None:
+                        raise AnalysisBroken("C11.8: %s:%d: carry-out predicate %s is not decided on the class (%s): idiom not modelled" %
+                                             (un, line(cs), show(cs["r"]), descr(undec)))
+                    rep.ob("C11.8", fn, site, wrong is None,
+                           "carry-out %s equals the true carry of %s on all %d ordering classes" % (show(cs["r"]), show(s), len(dom)) if wrong is None else
+                           "line %d: carry-out %s is %s on the feasible class (%s) where the true carry is %d: the carry is lost (e.g. operand 0xFFFFFFFF with carry-in set)" %
+                           (line(cs), show(cs["r"]), "FALSE" if wrong[1] else "TRUE", descr(wrong), wrong[1]), cs)
+    rep.floor("C11.8", 1)
 
 
 def parent_of(root, node):
@@ -561,7 +759,24 @@ def buffer_bytes(au, rec):
     return f["bits"] // 8
 
 
+# generic robustness battery: renaming every local/parameter in these files must not change any verdict
+RENAME_LOCALS = ['src/pcryptohash.c', 'src/pcryptohash-sha3.c']   # md5/sha1 use unhygienic round macros that name the locals
+
 SELFTEST = [
+    dict(id="gost-carry-equal-case-dropped", file="src/pcryptohash-gost3411.c", expect="C11.8",
+         old="carry = (a[i] < old || (carry && a[i] == old)) ? TRUE : FALSE;", new="carry = (a[i] < old) ? TRUE : FALSE;"),
+    dict(id="gost-carry-two-strict-compares", file="src/pcryptohash-gost3411.c", expect="C11.8",
+         old="carry = (a[i] < old || (carry && a[i] == old)) ? TRUE : FALSE;", new="carry = (a[i] < old || a[i] < b[i]) ? TRUE : FALSE;"),
+    dict(id="gost-carry-always-le", file="src/pcryptohash-gost3411.c", expect="C11.8",
+         old="carry = (a[i] < old || (carry && a[i] == old)) ? TRUE : FALSE;", new="carry = (a[i] <= old) ? TRUE : FALSE;"),
+    dict(id="gost-carry-inverted", file="src/pcryptohash-gost3411.c", expect="C11.8",
+         old="carry = (a[i] < old || (carry && a[i] == old)) ? TRUE : FALSE;", new="carry = (a[i] < old || (carry && a[i] == old)) ? FALSE : TRUE;"),
+    dict(id="gost-carry-select-form-neutral", file="src/pcryptohash-gost3411.c", expect=None,
+         old="carry = (a[i] < old || (carry && a[i] == old)) ? TRUE : FALSE;", new="carry = carry ? (a[i] <= old) : (a[i] < old);"),
+    dict(id="gost-carry-other-operand-neutral", file="src/pcryptohash-gost3411.c", expect=None,
+         old="carry = (a[i] < old || (carry && a[i] == old)) ? TRUE : FALSE;", new="carry = (b[i] > a[i] || (a[i] == b[i] && carry != 0)) ? TRUE : FALSE;"),
+    dict(id="gost-carry-plus-equals-neutral", file="src/pcryptohash-gost3411.c", expect=None,
+         old="a[i] = a[i] + b[i] + (carry ? 1 : 0);", new="a[i] += b[i] + (carry ? 1 : 0);"),
     dict(id="sha224-hash-len-24", file="src/pcryptohash.c", expect="C11.1",
          old="\t\tP_HASH_FUNCS (ret, sha2_224)\n\t\tret->hash_len = 28;", new="\t\tP_HASH_FUNCS (ret, sha2_224)\n\t\tret->hash_len = 24;"),
     dict(id="sha384-uses-sha256-slots", file="src/pcryptohash.c", expect="C11.1",
